@@ -85,6 +85,8 @@ pub struct G {
     pub parent: Option<Gid>,
     /// consecutive back-edge yields without an event (spin detection)
     pub spins: u32,
+    /// consecutive back-edge yields without any event at all, loads included
+    pub blind_spins: u64,
 }
 
 #[derive(Clone, Debug, PartialEq, serde::Serialize)]
@@ -119,6 +121,7 @@ pub struct CoState {
     ctrl: Option<Box<dyn Controller + Send>>,
     pub schedule: Vec<Gid>,
     pub max_steps: u64,
+    pub max_blind_spins: u64,
 }
 
 pub struct Co {
@@ -159,6 +162,7 @@ impl Co {
                 ctrl: None,
                 schedule: Vec::new(),
                 max_steps: u64::MAX,
+                max_blind_spins: 0,
             }),
             cv: Condvar::new(),
         })
@@ -176,6 +180,10 @@ impl Co {
         }
         if matches!(pending, Pending::Backedge) {
             s.gs[gid].spins += 1;
+            s.gs[gid].blind_spins += 1;
+            if s.gs[gid].blind_spins > s.max_blind_spins {
+                s.max_blind_spins = s.gs[gid].blind_spins;
+            }
         }
         s.gs[gid].pending = pending;
         s.gs[gid].state = GState::Parked;
@@ -209,6 +217,7 @@ impl Co {
         if !matches!(ev, Ev::Load { .. }) {
             s.gs[gid].spins = 0;
         }
+        s.gs[gid].blind_spins = 0;
         s.events.push(Event { seq, gid, ev });
     }
 
@@ -264,7 +273,7 @@ impl Co {
                 return s.gs.len();
             }
             gid = s.gs.len();
-            s.gs.push(G { state: GState::Parked, pending: Pending::Start, parent, spins: 0 });
+            s.gs.push(G { state: GState::Parked, pending: Pending::Start, parent, spins: 0, blind_spins: 0 });
         }
         let co = self.clone();
         let h = std::thread::Builder::new()
@@ -426,6 +435,9 @@ pub struct RunOutput {
     pub goroutines: usize,
     /// goroutines that had not finished when the run stopped
     pub live_at_stop: usize,
+    /// longest run of loop back-edges one goroutine took without a single event in between
+    /// (no read of a shared cell, no effect): such a loop cannot be ended by anybody else
+    pub max_blind_spins: u64,
 }
 
 /// Drive the coroutine set to completion under `ctrl`; the controller is handed back.
@@ -472,6 +484,7 @@ pub fn drive<C: Controller + Send + 'static>(co: &Arc<Co>, ctrl: C, max_steps: u
             sim_time_ns: s.clock,
             goroutines: s.gs.len(),
             live_at_stop: s.gs.iter().filter(|g| !matches!(g.state, GState::Done)).count(),
+            max_blind_spins: s.max_blind_spins,
         },
         ctrl,
     )
